@@ -8,6 +8,7 @@ From Coq Require Import Lia PeanoNat.
 From AV Require Import Base.Bytes Base.Outcome Hash.HashModel Spec.SpecOps Xml.TablesOk Tree.Heap Tree.Ops Tree.Script Tree.Copy Tree.Inv.
 From AV Require Import Tree.InvProofsBase Tree.InvProofsCore Tree.InvProofsPrim Tree.InvProofs Tree.Files Tree.FilesProofsOp2 Tree.FilesProofsTop Tree.FilesProofsDup2 Tree.CopyProofsIrp
   Tree.SortProofsReadyV Tree.IndexProofsNodeInv Tree.OrdFiles Tree.OrdHist.
+From AV Require Import Tree.FilesProofsBase Tree.CopyProofsRegId.
 From AV Require Import Tree.NoPanic Tree.NoPanicProofsBase Tree.NoPanicProofsOps1 Tree.NoPanicProofsOps4 Tree.NoPanicProofsDepth
   Tree.NoPanicProofsCopy2 Tree.NoPanicFloat Tree.NoPanicProofsHist Tree.NoPanicProofsOp2Inv Tree.NoPanicProofsFiles Tree.NoPanicProofsSerFile
   Tree.NoPanicProofsOp2Hist.
@@ -81,11 +82,16 @@ Proof.
     apply Nat.eqb_eq in E. apply Nnat.N2Nat.inj in E. subst f. rewrite Hfl in Hg. injection Hg as <-. exact Hm.
 Qed.
 
-Lemma dup_files_ok c : forall files fm w, D w -> c < lenM w -> (forall f, In f files -> f < lenF w) ->
-  exists r w', dup_files T c files fm w = Val (r, w') /\ D w' /\ Grow w w'.
+(* the file map of duplicate: every value is an existing file id *)
+Definition fm_ok (w : world) (fm : list (list N * N)) : Prop := forall k v, assoc_get k fm = Some v -> v < lenF w.
+Lemma fm_ok_grow w w' fm : Grow w w' -> fm_ok w fm -> fm_ok w' fm.
+Proof. intros (_ & _ & G) H k v E. pose proof (H k v E). lia. Qed.
+
+Lemma dup_files_ok c : forall files fm w, D w -> c < lenM w -> (forall f, In f files -> f < lenF w) -> fm_ok w fm ->
+  exists r w', dup_files T c files fm w = Val (r, w') /\ D w' /\ Grow w w' /\ (forall fm', r = OK fm' -> fm_ok w' fm').
 Proof.
-  induction files as [|f rest IH]; intros fm w HD Lc Hf; cbn [dup_files].
-  - exists (OK fm), w. split; [reflexivity|]. split; [exact HD|apply Grow_refl].
+  induction files as [|f rest IH]; intros fm w HD Lc Hf HM; cbn [dup_files].
+  - exists (OK fm), w. split; [reflexivity|]. split; [exact HD|]. split; [apply Grow_refl|]. intros fm' [= <-]. exact HM.
   - pose proof HD as ((I & (NF & FK)) & O).
     destruct (nth_opt_lt' (w_files w) (N.to_nat f)) as (fl & Hfl); [pose proof (Hf f (or_introl eq_refl)); lia|].
     rewrite (wbind_ok _ _ w fl w) by (unfold get_file; rewrite Hfl; reflexivity).
@@ -94,7 +100,7 @@ Proof.
     assert (D1 : D w1).
     { apply (D_op (OpCreateFile c (f_name fl) (f_version fl)) w rv w1 HD); [exact Lc|exact (proj2 (FK _ _ Hfl))|exact Ev]. }
     pose proof (grow_op T tab_el tab_en check_fn LATEST root_attrs (OpCreateFile c (f_name fl) (f_version fl)) w rv w1 Ev) as G1.
-    destruct r1 as [nf|e]; [|rewrite (wbind_er _ _ _ _ _ E1); eauto].
+    destruct r1 as [nf|e]; [|rewrite (wbind_er _ _ _ _ _ E1); exists (ER e), w1; split; [reflexivity|]; split; [exact D1|]; split; [exact G1|]; intros fm' [=]].
     rewrite (wbind_ok _ _ _ _ _ E1).
     destruct (create_file_effect T c (f_name fl) (f_version fl) w nf w1 E1) as (-> & Fw1 & _).
     assert (Hnf : nth_opt (w_files w1) (N.to_nat (lenF w)) = Some (mkFile c (f_name fl) (f_version fl) None)).
@@ -105,10 +111,14 @@ Proof.
     assert (D2 : D w2) by (exact (D_set_standalone w1 (lenF w) _ (f_standalone fl) D1 Hnf)).
     assert (G2 : Grow w w2).
     { destruct G1 as (A & B & C0). unfold Grow, w2. cbn [w_next w_models w_files]. rewrite list_set_len. auto. }
-    destruct (IH (assoc_insert (f_name fl) (lenF w) fm) w2 D2) as (r & w' & E & D' & G').
+    assert (LF2 : lenF w < lenF w2).
+    { unfold w2. cbn [w_files]. rewrite list_set_len, Fw1, app_length. cbn. lia. }
+    destruct (IH (assoc_insert (f_name fl) (lenF w) fm) w2 D2) as (r & w' & E & D' & G' & M').
     { destruct G2 as (_ & B & _). lia. }
     { intros g Hg. destruct G2 as (_ & _ & C0). pose proof (Hf g (or_intror Hg)). lia. }
-    exists r, w'. split; [exact E|]. split; [exact D'|eapply Grow_trans; eauto].
+    { intros k v Hk. rewrite assoc_get_insert_cases in Hk. destruct (bytes_eqb (f_name fl) k); [injection Hk as <-; exact LF2|].
+      pose proof (HM k v Hk). lia. }
+    exists r, w'. split; [exact E|]. split; [exact D'|]. split; [eapply Grow_trans; eauto|exact M'].
 Qed.
 
 (* ---------- the copies of the root's children ---------- *)
@@ -162,6 +172,62 @@ Proof.
   apply IH; [intros o0 H0; apply A, Ho; right; exact H0|intros c0 H0; apply A, Hc; right; exact H0].
 Qed.
 
+(* a node whose local file set alone changes, to existing file ids *)
+Lemma D_set_files w i n fs : D w -> w_nodes w i = Some n -> (forall g, In g fs -> g < lenF w) -> D (wset w i (set_files n fs)).
+Proof.
+  intros ((I & (NF & FK)) & O) Hn Hfs. set (n' := set_files n fs). set (w' := wset w i n').
+  pose proof I as (C & _ & _ & _ & V & _).
+  assert (S : srel w w').
+  { split; [reflexivity|]. intros j. unfold w'. destruct (N.eq_dec j i) as [->|NE].
+    - rewrite InvProofsPrim.nodes_wset_eq, Hn. repeat split; auto.
+    - rewrite InvProofsPrim.nodes_wset_neq by exact NE. destruct (w_nodes w j); [|exact Logic.I]. repeat split; auto. }
+  split; [split; [|split]|].
+  - apply (H12_srel T tab_el tab_at tab_en w w' S); [| |exact I].
+    + apply (Core_same_tree w w'); [|exact C]. split; [reflexivity|]. split; [reflexivity|]. intros j. unfold skel, w'.
+      destruct (N.eq_dec j i) as [->|NE]; [rewrite InvProofsPrim.nodes_wset_eq, Hn; reflexivity|rewrite InvProofsPrim.nodes_wset_neq by exact NE; reflexivity].
+    + intros j x Hx. unfold w' in Hx. destruct (N.eq_dec j i) as [->|NE].
+      * rewrite InvProofsPrim.nodes_wset_eq in Hx. injection Hx as <-. exact (V i n Hn).
+      * rewrite InvProofsPrim.nodes_wset_neq in Hx by exact NE. exact (V j x Hx).
+  - split; [|reflexivity]. intros j x Hx. unfold w' in Hx. cbn [w_files wset]. destruct (N.eq_dec j i) as [->|NE].
+    + rewrite InvProofsPrim.nodes_wset_eq in Hx. injection Hx as <-. intros g Hg. cbn [n_files n' set_files] in Hg.
+      pose proof (Hfs g Hg) as Lg. destruct (nth_opt_lt' (w_files w) (N.to_nat g)) as (y & Hy); [lia|]. exists y. exact Hy.
+    + rewrite InvProofsPrim.nodes_wset_neq in Hx by exact NE. exact (proj1 NF j x Hx).
+  - exact FK.
+  - exact (FilesProofsOp2.owned_same w w' eq_refl eq_refl O).
+Qed.
+
+Lemma translate_files_ok w fm : fm_ok w fm -> forall fs g, In g (translate_files w fm fs) -> g < lenF w.
+Proof.
+  intros HM. induction fs as [|f rest IH]; intros g Hg; cbn [translate_files] in Hg; [destruct Hg|].
+  destruct (nth_opt (w_files w) (N.to_nat f)) as [fl|]; [|exact (IH g Hg)].
+  destruct (assoc_get (f_name fl) fm) as [nf|] eqn:E; [|exact (IH g Hg)].
+  apply set_add_in in Hg as [->|Hg]; [exact (HM _ _ E)|exact (IH g Hg)].
+Qed.
+
+Lemma dup_membership_D fm : forall oids cids w, D w -> fm_ok w fm ->
+  (forall o, In o oids -> w_nodes w o <> None) -> (forall c, In c cids -> w_nodes w c <> None) ->
+  exists r w', dup_membership fm oids cids w = Val (r, w') /\ D w' /\ Grow w w'.
+Proof.
+  induction oids as [|o orest IH]; intros cids w HD HM Ho Hc; cbn [dup_membership].
+  - exists (OK tt), w. split; [reflexivity|]. split; [exact HD|apply Grow_refl].
+  - destruct cids as [|c crest]; [exists (OK tt), w; split; [reflexivity|]; split; [exact HD|apply Grow_refl]|].
+    destruct (w_nodes w o) as [on|] eqn:Eo; [|exfalso; exact (Ho o (or_introl eq_refl) Eo)].
+    rewrite (wbind_ok _ _ w on w) by (unfold get_node; rewrite Eo; reflexivity).
+    rewrite (wbind_ok _ _ w w w) by reflexivity.
+    destruct (w_nodes w c) as [cn|] eqn:Ec; [|exfalso; exact (Hc c (or_introl eq_refl) Ec)].
+    set (g := fun x : node => set_files x (translate_files w fm (n_files on))).
+    assert (Em : modify_node c g w = Val (OK tt, wset w c (g cn))).
+    { unfold modify_node, wbind, get_node. rewrite Ec. reflexivity. }
+    unfold wbind at 1. rewrite Em. set (w1 := wset w c (g cn)).
+    assert (D1 : D w1) by (apply (D_set_files w c cn _ HD Ec); apply translate_files_ok; exact HM).
+    assert (A : forall j, w_nodes w j <> None -> w_nodes w1 j <> None).
+    { intros j Hj. unfold w1. destruct (N.eq_dec j c) as [->|NE]; [rewrite InvProofsPrim.nodes_wset_eq; discriminate|rewrite InvProofsPrim.nodes_wset_neq by exact NE; exact Hj]. }
+    destruct (IH crest w1 D1 HM) as (r & w' & E & D' & G').
+    { intros o0 H0. apply A, Ho. right. exact H0. }
+    { intros c0 H0. apply A, Hc. right. exact H0. }
+    exists r, w'. split; [exact E|]. split; [exact D'|]. eapply Grow_trans; [|exact G']. unfold Grow, w1. cbn. repeat split; lia.
+Qed.
+
 (* ---------- the root of the copy takes the attributes and the comment of the original root ---------- *)
 Lemma D_set_attrs w i n a c : D w -> w_nodes w i = Some n -> attrV tab_at tab_en a ->
   D (wset w i (set_comment (set_attrs n a) c)).
@@ -195,10 +261,11 @@ Definition dup_sized (m : N) (w : world) : Prop :=
     dup_files T c (m_files x) [] w2 = Val (OK fm, w3) ->
     sized_copies (m_root cx) (n_content rn) w3.
 
-Theorem np_duplicate_body w m : D w -> m < lenM w -> dup_sized m w -> runs (m_duplicate_body T LATEST root_attrs m) w.
+Theorem np_duplicate_bodyD w m : D w -> m < lenM w -> dup_sized m w ->
+  exists r w', m_duplicate_body T LATEST root_attrs m w = Val (r, w') /\ D w'.
 Proof.
   intros HD Lm HS. pose proof HD as ((I & F) & O). pose proof (H12_PanicFree T tab_el tab_at tab_en w I) as [C U CU].
-  unfold m_duplicate_body, runs.
+  unfold m_duplicate_body.
   destruct (ENV get_model_ok w m C Lm) as (x & Ex & Hx & (Lrx & _)).
   rewrite (wbind_ok _ _ _ _ _ Ex).
   (* new_model *)
@@ -223,12 +290,12 @@ Proof.
   assert (D2 : D w2).
   { apply (D_set_attrs w1 (m_root cx) crn (n_attrs rn) (n_comment rn) D1 Hcrn). destruct I1 as (_ & _ & _ & _ & V1 & _). exact (proj2 (V1 _ _ Hrn)). }
   (* the files *)
-  destruct (dup_files_ok c (m_files x) [] w2 D2) as (r3 & w3 & E3 & D3 & G3); [exact Lc1| |].
+  destruct (dup_files_ok c (m_files x) [] w2 D2) as (r3 & w3 & E3 & D3 & G3 & M3); [exact Lc1| |intros k v [=]|].
   { intros f Hf. destruct (O m x f Hx Hf) as (fl & Hfl & _). unfold w2. cbn [w_files wset]. destruct G1 as (_ & _ & A).
     assert (N.to_nat f < List.length (w_files w))%nat; [|lia].
     clear - Hfl. revert Hfl. generalize (N.to_nat f). induction (w_files w) as [|a l IH]; intros [|k] H; cbn in *; try discriminate; try lia.
     apply IH in H. lia. }
-  destruct r3 as [fm|e3]; [|rewrite (wbind_er _ _ _ _ _ E3); eauto]. rewrite (wbind_ok _ _ _ _ _ E3).
+  destruct r3 as [fm|e3]; [|rewrite (wbind_er _ _ _ _ _ E3); eauto]. rewrite (wbind_ok _ _ _ _ _ E3). specialize (M3 fm eq_refl).
   (* the copies *)
   assert (N2 : w_next w2 = w_next w1) by reflexivity.
   destruct (dup_children_ok (m_root cx) (n_content rn) w3 D3) as (r4 & w4 & E4 & D4 & G4).
@@ -240,20 +307,34 @@ Proof.
   pose proof D4 as ((I4 & _) & _). pose proof (H12_PanicFree T tab_el tab_at tab_en w4 I4) as [C4 U4 CU4].
   assert (L4x : m_root x < w_next w4) by (destruct G3 as (A & _), G4 as (B & _); lia).
   assert (L4c : m_root cx < w_next w4) by (destruct G3 as (A & _), G4 as (B & _); lia).
-  change (runs (do w5 <- wget; do oids <- dfs_ids (fuel_of w5) (m_root x); do cids <- dfs_ids (fuel_of w5) (m_root cx); dup_membership fm oids cids;; wret c)%W w4).
-  eapply runs_bind; [reflexivity|]. intros a [= <-].
-  eapply rd_bind_runs; [exact (dfs_ids_runs T tab_el tab_en w4 C4 (fuel_of w4) (m_root x) L4x (hb_fuel T tab_el tab_en w4 _ C4 U4 CU4 L4x))|].
-  intros oids Ho.
-  eapply rd_bind_runs; [exact (dfs_ids_runs T tab_el tab_en w4 C4 (fuel_of w4) (m_root cx) L4c (hb_fuel T tab_el tab_en w4 _ C4 U4 CU4 L4c))|].
-  intros cids Hcs.
-  eapply runs_then; [|intros; apply runs_ret].
-  apply dup_membership_ok; intros j Hj; apply (cl_alloc _ _ _ _ C4); auto.
+  change (exists r w', (do w5 <- wget; do oids <- dfs_ids (fuel_of w5) (m_root x); do cids <- dfs_ids (fuel_of w5) (m_root cx); dup_membership fm oids cids;; wret c)%W w4 = Val (r, w') /\ D w').
+  rewrite (wbind_ok _ _ w4 w4 w4) by reflexivity.
+  destruct (dfs_ids_runs T tab_el tab_en w4 C4 (fuel_of w4) (m_root x) L4x (hb_fuel T tab_el tab_en w4 _ C4 U4 CU4 L4x)) as (ro & Eo & Fo).
+  destruct ro as [oids|eo]; [|rewrite (wbind_er _ _ _ _ _ Eo); eauto]. rewrite (wbind_ok _ _ _ _ _ Eo). specialize (Fo oids eq_refl).
+  destruct (dfs_ids_runs T tab_el tab_en w4 C4 (fuel_of w4) (m_root cx) L4c (hb_fuel T tab_el tab_en w4 _ C4 U4 CU4 L4c)) as (rc & Ec & Fc).
+  destruct rc as [cids|ec]; [|rewrite (wbind_er _ _ _ _ _ Ec); eauto]. rewrite (wbind_ok _ _ _ _ _ Ec). specialize (Fc cids eq_refl).
+  destruct (dup_membership_D fm oids cids w4 D4 (fm_ok_grow _ _ _ G4 M3)) as (r5 & w5 & E5 & D5 & _).
+  { intros j Hj. apply (cl_alloc _ _ _ _ C4). auto. }
+  { intros j Hj. apply (cl_alloc _ _ _ _ C4). auto. }
+  destruct r5 as [u5|e5]; [rewrite (wbind_ok _ _ _ _ _ E5); exists (OK c), w5; split; [reflexivity|exact D5]|rewrite (wbind_er _ _ _ _ _ E5); eauto].
 Qed.
+
+Theorem np_duplicate_body w m : D w -> m < lenM w -> dup_sized m w -> runs (m_duplicate_body T LATEST root_attrs m) w.
+Proof. intros HD Lm HS. destruct (np_duplicate_bodyD w m HD Lm HS) as (r & w' & E & _). unfold runs. eauto. Qed.
 
 Theorem np_duplicate w m : D w -> m < lenM w -> dup_sized m w -> runs (m_duplicate T tab_el tab_en check_fn LATEST root_attrs m) w.
 Proof.
   intros HD Lm HS. destruct (np_duplicate_body w m HD Lm HS) as (r & w' & E).
   unfold runs, m_duplicate. rewrite E. destruct r; eauto.
+Qed.
+
+(* a SUCCESSFUL duplicate keeps D (a failing one drops the copy's model record and leaves its root with the parent link
+   `PModel c`: agent-c13's class dup_failed) *)
+Theorem D_duplicate_ok w m c w' : D w -> m < lenM w -> dup_sized m w ->
+  m_duplicate T tab_el tab_en check_fn LATEST root_attrs m w = Val (OK c, w') -> D w'.
+Proof.
+  intros HD Lm HS H. destruct (np_duplicate_bodyD w m HD Lm HS) as (r & w1 & E & D1).
+  unfold m_duplicate in H. rewrite E in H. destruct r; [injection H as _ <-; exact D1|discriminate H].
 Qed.
 
 End Dup.
